@@ -98,7 +98,7 @@ Qed.
 Lemma parse_case_inv : forall l k, parse_case l = Some k ->
   match k with
   | CInj c | CRt c => ctx_wf c /\ exists h, c_ts c = from_header h
-  | CExt _ _ => True
+  | CExt _ _ | CPur => True
   end.
 Proof.
   intros l k H. unfold parse_case in H. destruct l as [|t rest]; [discriminate H|].
@@ -106,9 +106,11 @@ Proof.
   { destruct (parse_ctx rest) as [c|] eqn:P; [|discriminate H]. injection H as <-. eapply parse_ctx_wf; eassumption. }
   destruct (is_tag "RT" t).
   { destruct (parse_ctx rest) as [c|] eqn:P; [|discriminate H]. injection H as <-. eapply parse_ctx_wf; eassumption. }
-  destruct (is_tag "EXT" t); [|discriminate H].
-  destruct rest as [|a [|b [|]]]; try discriminate H.
-  destruct (opt_bytes a), (opt_bytes b); try discriminate H. injection H as <-. exact I.
+  destruct (is_tag "EXT" t).
+  { destruct rest as [|a [|b [|]]]; try discriminate H.
+    destruct (opt_bytes a), (opt_bytes b); try discriminate H. injection H as <-. exact I. }
+  destruct (is_tag "PURITY" t); [|discriminate H].
+  destruct rest as [|[| |] [|[| |] [|[| |] [|[| |] [|]]]]]; try discriminate H. injection H as <-. exact I.
 Qed.
 
 Lemma ctx_eqb_reparse : forall c, ts_stable (c_ts c) ->
@@ -124,7 +126,7 @@ Theorem model_meets_spec_param : parsed_ts_stable ->
   forall l, parse_case l <> None -> run_spec l (run_model l) = [].
 Proof.
   intros H14 l P. unfold run_spec, run_model.
-  destruct (parse_case l) as [[c|tp ts|c]|] eqn:E; [| | |contradiction].
+  destruct (parse_case l) as [[c|tp ts|c|]|] eqn:E; [| | |reflexivity|contradiction].
   - apply parse_case_inv in E as [W _]. rewrite parse_print_inj. now apply inject_meets_spec.
   - rewrite observe_extract_print, parse_print_ext.
     unfold spec_extract_ok. rewrite extract_eq_spec.
@@ -161,4 +163,10 @@ Example ex_spec_fires_upper : run_spec [tag "INJ"; TB (c_tid ex_ctx); TB (c_sid 
 Proof. vm_compute. reflexivity. Qed.
 Example ex_spec_fires_accept_ff : run_spec [tag "EXT"; TB (bs "ff-0af7651916cd43dd8448eb211c80319c-b7ad6b7169203331-01"); tag "NONE"]
    [tag "OK"; TB (c_tid ex_ctx); TB (c_sid ex_ctx); TZ 1; TZ 1; TB []] = fail "extract:malformed_accepted".
+Proof. vm_compute. reflexivity. Qed.
+Example ex_case_purity : parse_case [tag "PURITY"; TZ 8; TZ 4; TZ 100; TZ 3] = Some CPur.
+Proof. reflexivity. Qed.
+Example ex_purity_fires_race : run_spec [tag "PURITY"; TZ 8; TZ 4; TZ 100; TZ 3] [tag "RACE"; TB []] = fail "purity:data_race".
+Proof. vm_compute. reflexivity. Qed.
+Example ex_purity_fires_differs : run_spec [tag "PURITY"; TZ 8; TZ 4; TZ 100; TZ 3] [tag "DIFFERS"; TB []] = fail "purity:result_differs".
 Proof. vm_compute. reflexivity. Qed.
